@@ -8,15 +8,17 @@ TAGS = {"C03"}
 
 
 def order_case(args) -> dict:
-    name, tier = args
+    name, tier = args[0], args[1]
+    uuids = args[2] if len(args) > 2 else None
     root = core.fresh_dir("c03")
     out = {"name": name, "bad": [], "passes": 0, "harness": None,
            "sequences": 0}
     try:
         from sedpack.io import Dataset
-        kept, ref = dsfamily.build(root, name)
+        kept, ref = dsfamily.build(root, name, uuids=uuids)
         fmt = dsfamily.RECIPES[name][0]
         fresh = Dataset(root)
+        name = f"{name}[uuids {uuids}]" if uuids else name
         for split, want in ref.items():
             S = dsfamily.n_shards(fresh, split)
             pars = sorted({1, 2, S, S + 2})
@@ -72,8 +74,11 @@ def run(ctx):
     rustbuild.ensure_ext()
     with core.pool() as ex:
         tot = seqs = 0
-        for r in ex.map(order_case,
-                        [(n, ctx.tier) for n in dsfamily.RECIPES]):
+        tasks = [(n, ctx.tier) for n in dsfamily.RECIPES]
+        # generated directory names in increasing and in decreasing order
+        tasks += [(n, ctx.tier, o) for n in ("multi", "multi4", "nested")
+                  for o in ("ascending", "descending")]
+        for r in ex.map(order_case, tasks):
             if r["harness"]:
                 ctx.harness_error(f"{r['name']}: {r['harness']}")
                 continue
@@ -82,7 +87,11 @@ def run(ctx):
             for sym, iface, msg in r["bad"]:
                 ctx.violation({"engine": "dataset", "symptom": sym,
                                "iface": iface}, msg,
-                              {"kind": "order", "name": r["name"]})
+                              {"kind": "order", "name": r["name"].split("[")[0],
+                               "uuids": ("descending" if "descending" in
+                                         r["name"] else ("ascending" if
+                                         "ascending" in r["name"] else
+                                         None))})
         ctx.part("dataset family x interfaces x file_parallelism x 2 passes "
                  "x kept/reopened handle (OS schedule)", passes=tot,
                  distinct_sequences=seqs)
@@ -121,5 +130,5 @@ def replay(case):
     if case.get("kind") == "controlled":
         return dataset_mc.replay(case)
     core.import_sedpack_quietly()
-    r = order_case((case["name"], "quick"))
+    r = order_case((case["name"], "quick", case.get("uuids")))
     return [m for _, _, m in r["bad"]]
